@@ -1,7 +1,7 @@
 """Tie A tables of C16: the warning-level -> flags table, the -w choices, and every code location
 that can observe a verbosity / path-formatting option."""
 from tables.util import llist, lstr
-from tables.diagscan import verbosity_readers, diagnostic_sites
+from tables.diagscan import verbosity_readers, diagnostic_sites, diagnostic_site_args
 
 NAME = "C16"
 
@@ -36,6 +36,12 @@ def tables():
     sites = [x for x in diagnostic_sites() if x["file"] != "rattr/error/error.py"]
     if len(sites) < 20:
         raise ValueError("diagnostic call-site scan found implausibly few calls")
+    args = [x for x in diagnostic_site_args() if x["file"] != "rattr/error/error.py"]
+    if [(x["file"], x["fn"], x["level"], x["k"]) for x in args] != [(x["file"], x["fn"], x["level"], x["k"]) for x in sites]:
+        raise ValueError("the two diagnostic call-site scans disagree")
+    cache_fns = {("rattr/__main__.py", "main"), ("rattr/__main__.py", "write_cache_file"),
+                 ("rattr/models/results/util.py", "target_cache_file_is_up_to_date")}
+    gate_shape = [f"{x['fn']}:{x['level']}:{x['nargs']}:{x['keywords']}" for x in args if (x["file"], x["fn"]) in cache_fns]
     return [
         f"def warnChoices : List String := {llist(choices)}",
         f"def warnDefault : String := {lstr(default)}",
@@ -52,4 +58,9 @@ def tables():
         "/-- every call of a level function outside rattr/error/error.py: (file, enclosing function, level, k) with k numbering the calls of that level in that function in source order -/",
         "def diagSites : List (String × String × String × Nat) := ["
         + ",\n  ".join(f"({lstr(x['file'])}, {lstr(x['fn'])}, {lstr(x['level'])}, {x['k']})" for x in sites) + "]",
+        "/-- the CULPRIT argument of every such call (second positional argument or keyword `culprit`): its source text, \"\" when there is none (or the literal None) -/",
+        "def siteCulprits : List ((String × String × String × Nat) × String) := ["
+        + ",\n  ".join(f"(({lstr(x['file'])}, {lstr(x['fn'])}, {lstr(x['level'])}, {x['k']}), {lstr(x['culprit'])})" for x in args) + "]",
+        "/-- the level-function calls of `main`, `write_cache_file` and `target_cache_file_is_up_to_date` in source order: function:level:#positional:keywords -/",
+        f"def cacheGateShape : List String := {llist(gate_shape)}",
     ]
